@@ -1388,6 +1388,10 @@ class sptensor:
         ):
             assert False, "Factor matrices must be of size (shape[i], R)"
 
+        # As real numbers: integer, boolean or single precision values or factors
+        # must not wrap around or saturate in the products and their sums
+        U = [u if i == n else as_float_if_needed(u) for i, u in enumerate(U)]
+
         V = np.zeros((self.shape[n], R), order=self.order)
         for r in range(R):
             # Set up list with appropriate vectors for ttv multiplication
